@@ -59,6 +59,43 @@ theorem copy_equiv (D : Consts F) (hD : D.OK) (dt : DInfo F) (hwf : dt.WF D)
       (∀ w, importValue dt'.erase w = importValue dt.erase w) ∧ (∀ v, call dt'.erase v = call dt.erase v) :=
   ⟨dt, copy_core D hD constsOK2 dt hwf hex, rfl, fun _ _ => rfl, fun _ => rfl, fun _ => rfl⟩
 
+/-- the description of a scaled integer says where its limits are: the integers exported as `min` / `max`
+(`int(round(limit / scale))`) are grid indices whose grid values `index * scale` — what `get_datatype` and
+`copy()` hand to the constructor — are the limits themselves, whatever side of the whole number the float
+quotient `limit / scale` lands on (`Aligned` is a statement about `round`, not about the quotient) -/
+theorem scaled_description_exact (D : Consts F) (s mn mx ar rr : F) (u f : String)
+    (hmn : DInfo.Aligned s mn) (hmx : DInfo.Aligned s mx) :
+    ∃ kmin kmax fields, exportDatatype D (.scaled s mn mx ar rr u f) = .ok (.obj fields) ∧
+      PVal.dictGet fields "min" = some (.int kmin) ∧ PVal.dictGet fields "max" = some (.int kmax) ∧
+      DType.ofGrid s kmin = some mn ∧ DType.ofGrid s kmax = some mx := by
+  obtain ⟨kmin, ymin, g1, o1, e1⟩ := aligned_iff hmn
+  obtain ⟨kmax, ymax, g2, o2, e2⟩ := aligned_iff hmx
+  refine ⟨kmin, kmax, _, by rw [exportDatatype, g1, g2], ?_, ?_, ?_, ?_⟩
+  · simp [dictGet_append, dictGet_optField, dictGet_cons, dictGet_scaledAbsRes_ne]
+  · simp [dictGet_append, dictGet_optField, dictGet_cons, dictGet_scaledAbsRes_ne]
+  · simp [DType.ofGrid, o1, e1]
+  · simp [DType.ofGrid, o2, e2]
+
+/-- … and only then: when the exported `min` (`max`) denotes the limit, the limit is grid aligned.  So
+"grid-aligned limits" in the quantifier of the property is exactly the condition under which the description
+can be faithful; any other limit is moved to its nearest grid value by the round trip (`rebuild_snaps`). -/
+theorem scaled_description_exact_only_if (D : Consts F) (s mn mx ar rr : F) (u f : String)
+    (fields : List (String × JVal F)) (kmin kmax : Int)
+    (hex : exportDatatype D (.scaled s mn mx ar rr u f) = .ok (.obj fields))
+    (h1 : PVal.dictGet fields "min" = some (.int kmin)) (h2 : PVal.dictGet fields "max" = some (.int kmax))
+    (g1 : DType.ofGrid s kmin = some mn) (g2 : DType.ofGrid s kmax = some mx) :
+    DInfo.Aligned s mn ∧ DInfo.Aligned s mx := by
+  rw [exportDatatype] at hex
+  split at hex
+  · rename_i k1 k2 e1 e2
+    injection hex with hex
+    injection hex with hex
+    subst hex
+    simp [dictGet_append, dictGet_optField, dictGet_cons, dictGet_scaledAbsRes_ne] at h1 h2
+    subst h1 h2
+    exact ⟨by simp [DInfo.Aligned, DType.snap, e1, g1], by simp [DInfo.Aligned, DType.snap, e2, g2]⟩
+  · cases hex
+
 /-! ## compatibility verdicts -/
 
 /-- the full statement: "the check passes only if every value valid for the first is valid for the second" -/
@@ -416,6 +453,16 @@ example : ∃ (a b : DType Rat), a.WF ∧ b.WF ∧ GridAligned a ∧ GridAligned
     compatible a b = .ok () ∧ InSet a (.int 2) :=
   ⟨.int 1 2, .enum [("a", 1), ("b", 2)], by simp [DType.WF, DType.intLimit], by simp [DType.WF, DType.namesOK],
     trivial, trivial, trivial, trivial, rfl, by simp [InSet, InSetG]⟩
+
+/-- `scaled_description_exact` applies to `ScaledInteger(0.1, -0.3, 0.7)` (over the exact carrier): the description says
+`min = -3`, `max = 7` -/
+example : DInfo.Aligned (1/10 : Rat) (-3/10) ∧ DInfo.Aligned (1/10 : Rat) (7/10) ∧
+    DType.gridIndex (1/10 : Rat) (-3/10) = some (-3) ∧ DType.gridIndex (1/10 : Rat) (7/10) = some 7 := by
+  refine ⟨?_, ?_, ?_, ?_⟩
+  · unfold DInfo.Aligned; decide +kernel
+  · unfold DInfo.Aligned; decide +kernel
+  · decide +kernel
+  · decide +kernel
 
 /-- … and `compatible_complete` applies to a container pair with nested members -/
 example : ∃ (a b : DType Rat), a.WF ∧ b.WF ∧ GridAligned a ∧ GridAligned b ∧ Nested a b :=
